@@ -85,7 +85,7 @@ Definition init : st :=
   let '(c2, i2n0, n2i0) := fold_left (fun '(c, a, b) i =>
         let l := get lambda i in let idx := get ptr l + get c l in
         (set c l (get c l + 1), set a idx i, set b i idx)) nodes (zeros, zn, zn) in
-  let spl0 := map (fun i => if (get lambda i =? 0) || ((get lambda i =? 1) && (get Tj (get Tp i) =? i)) then F_NODE else U_NODE) nodes in
+  let spl0 := map (fun i => if (get lambda i =? 0) || ((get lambda i =? 1) && (get Tp i <? get Tp (i + 1)) && (get Tj (get Tp i) =? i)) then F_NODE else U_NODE) nodes in
   {| lam := lambda; iptr := ptr; icnt := c2; i2n := i2n0; n2i := n2i0; spl := spl0 |}.
 
 Definition rs_cf_splitting : list Z :=
